@@ -221,3 +221,29 @@ package metadatapart
 //@ ensures[C01:whole-object-read-not-refused] byteRange.Start == nil && byteRange.End == nil && err == storage.ErrInvalidRange ==> called(mbs.partStores.ByName)
 //@ ensures[C01:empty-object-readable] byteRange.Start == nil && byteRange.End == nil && len(object.Parts) == 0 ==> err == nil
 //@ effect[C01:part-read-from-the-store-named-by-its-row] every mbs.partStores.ByName($n) where specSameOpt($n, part.StoreName)
+
+// C01. UploadPartCopy shares a source part instead of copying bytes only when the requested range is exactly that
+// part: the part returned has exactly the length of the range (End is exclusive) and starts where the range starts.
+//@ func findWhollyCoveredPart
+//@ mode nosafety
+//@ ensures[C01:shared-part-has-the-length-of-the-range] result != nil ==> result.Size == specRangeEnd(byteRange, objectSize) - specRangeStart(byteRange)
+//@ ensures[C01:shared-part-starts-where-the-range-starts] result != nil ==>
+//@     exists k :: 0 <= k && k < len(parts) && specPrefixSize(parts, k) == specRangeStart(byteRange) && parts[k].Size == result.Size
+//@ loop 0 invariant 0 <= iter__ && iter__ <= len(parts) && offset == specPrefixSize(parts, iter__)
+
+// C02. A delete destroys a version only when the caller named that version: the version id handed to the metadata
+// store is the caller's own - absent for a key-only delete (which the store answers with a delete marker or the removal
+// of the null version), the named one otherwise - and so is the ETag condition.
+//@ func (*metadataPartStorage).DeleteObject$1
+//@ mode effects
+//@ effect[C02:delete-names-only-the-callers-version] every mbs.metadataStore.DeleteObject(_, _, $b, $k, $o)
+//@     where $b == bucketName && $k == key && (opts == nil || opts.VersionID == nil ==> $o == nil || $o.VersionID == nil) &&
+//@         (opts != nil && opts.VersionID != nil ==> $o != nil && $o.VersionID == opts.VersionID) &&
+//@         (opts != nil && opts.IfMatchETag != nil ==> $o != nil && $o.IfMatchETag == opts.IfMatchETag)
+
+//@ func (*metadataPartStorage).DeleteObjects$1
+//@ mode effects
+//@ effect[C02:batch-delete-names-only-the-entrys-version] every mbs.metadataStore.DeleteObject(_, _, $b, $k, $o)
+//@     where $b == bucketName && $k == entry.Key && (entry.VersionID == nil ==> $o == nil || $o.VersionID == nil) &&
+//@         (entry.VersionID != nil ==> $o != nil && $o.VersionID != nil && *$o.VersionID == *entry.VersionID) &&
+//@         (entry.IfMatchETag != nil ==> $o != nil && $o.IfMatchETag != nil && *$o.IfMatchETag == *entry.IfMatchETag)
